@@ -48,6 +48,9 @@ struct Workload {
     rounds: u32,
     /// Per reader: the operations it performs (true = clear, false = snapshot).
     readers: Vec<Vec<bool>>,
+    /// The tracer dies of a fatal socket error at this (0-based) readiness poll of the run,
+    /// so that the error hand-off races with the readers too.
+    fail_at: Option<u32>,
 }
 
 impl Workload {
@@ -61,7 +64,8 @@ impl Workload {
                 (0..n).map(|_| t.chance(350)).collect()
             })
             .collect();
-        Self { seed, rounds, readers }
+        let fail_at = if t.chance(350) { Some(t.draw(rounds * 8 + 1)) } else { None };
+        Self { seed, rounds, readers, fail_at }
     }
 
     fn to_json(&self) -> Value {
@@ -69,6 +73,7 @@ impl Workload {
             "seed": self.seed,
             "rounds": self.rounds,
             "readers": self.readers.iter().map(|r| r.iter().map(|c| if *c { "clear" } else { "snapshot" }).collect::<Vec<_>>()).collect::<Vec<_>>(),
+            "fail_at": self.fail_at,
         })
     }
 
@@ -81,6 +86,7 @@ impl Workload {
                 .iter()
                 .map(|r| r.as_array().map(|a| a.iter().map(|x| x.as_str() == Some("clear")).collect()).unwrap_or_default())
                 .collect(),
+            fail_at: v["fail_at"].as_u64().map(|x| x as u32),
         })
     }
 }
@@ -107,6 +113,9 @@ fn scenario_of(w: &Workload) -> Scenario {
     sc.net.extra_delay_pm = 0;
     sc.faults.tick_base_ns = 500;
     sc.faults.tick_jitter_ns = 0;
+    if let Some(n) = w.fail_at {
+        sc.faults.scripted.push(scenario::ScriptedFault { site: scenario::Site::IsReadable, nth: n, errno: libc::EBADF, run_phase: true });
+    }
     sc
 }
 
@@ -117,12 +126,15 @@ enum Op {
     Publish { k: usize, inv: u64, resp: u64 },
     Clear { inv: u64, resp: u64, reader: usize },
     Snapshot { inv: u64, resp: u64, reader: usize, digest: String },
+    /// The run ended with a fatal error, which was recorded in the state somewhere inside
+    /// the interval.
+    Fail { inv: u64, resp: u64, text: String },
 }
 
 impl Op {
     fn interval(&self) -> (u64, u64) {
         match self {
-            Op::Publish { inv, resp, .. } | Op::Clear { inv, resp, .. } | Op::Snapshot { inv, resp, .. } => (*inv, *resp),
+            Op::Publish { inv, resp, .. } | Op::Clear { inv, resp, .. } | Op::Snapshot { inv, resp, .. } | Op::Fail { inv, resp, .. } => (*inv, *resp),
         }
     }
 }
@@ -189,27 +201,37 @@ fn model_digest(rounds: &[OwnedRound], a: usize, b: usize, cfg: StateConfig, cac
     d
 }
 
+/// The digest of the same state with a recorded error.
+fn with_error(d: &str, err: Option<&str>) -> String {
+    match err {
+        None => d.to_string(),
+        Some(e) => d.replacen("err=None;", &format!("err={:?};", Some(e)), 1),
+    }
+}
+
 /// Is the history linearizable w.r.t. the model?  Brute-force search over linearization
 /// orders that respect real-time order (histories are small).
 fn linearizable(ops: &[Op], rounds: &[OwnedRound], cfg: StateConfig) -> Result<(), String> {
     let n = ops.len();
     let mut cache = BTreeMap::new();
     // state of the search: set of done ops (bitmask), model = (clear point a, applied b)
+    #[allow(clippy::too_many_arguments)]
     fn dfs(
         done: u32,
         a: usize,
         b: usize,
+        err: Option<&str>,
         ops: &[Op],
         rounds: &[OwnedRound],
         cfg: StateConfig,
         cache: &mut BTreeMap<(usize, usize), String>,
-        seen: &mut HashSet<(u32, usize, usize)>,
+        seen: &mut HashSet<(u32, usize, usize, bool)>,
     ) -> bool {
         let n = ops.len();
         if done.count_ones() as usize == n {
             return true;
         }
-        if !seen.insert((done, a, b)) {
+        if !seen.insert((done, a, b, err.is_some())) {
             return false;
         }
         // an op may be linearized next iff no other pending op responded before it was invoked
@@ -224,17 +246,23 @@ fn linearizable(ops: &[Op], rounds: &[OwnedRound], cfg: StateConfig) -> Result<(
             }
             match &ops[i] {
                 Op::Publish { k, .. } => {
-                    if *k == b && dfs(done | (1 << i), a, b + 1, ops, rounds, cfg, cache, seen) {
+                    if *k == b && dfs(done | (1 << i), a, b + 1, err, ops, rounds, cfg, cache, seen) {
                         return true;
                     }
                 }
                 Op::Clear { .. } => {
-                    if dfs(done | (1 << i), b, b, ops, rounds, cfg, cache, seen) {
+                    // clearing replaces the whole state, the recorded error included
+                    if dfs(done | (1 << i), b, b, None, ops, rounds, cfg, cache, seen) {
+                        return true;
+                    }
+                }
+                Op::Fail { text, .. } => {
+                    if dfs(done | (1 << i), a, b, Some(text.as_str()), ops, rounds, cfg, cache, seen) {
                         return true;
                     }
                 }
                 Op::Snapshot { digest, .. } => {
-                    if b <= rounds.len() && &model_digest(rounds, a, b, cfg, cache) == digest && dfs(done | (1 << i), a, b, ops, rounds, cfg, cache, seen) {
+                    if b <= rounds.len() && &with_error(&model_digest(rounds, a, b, cfg, cache), err) == digest && dfs(done | (1 << i), a, b, err, ops, rounds, cfg, cache, seen) {
                         return true;
                     }
                 }
@@ -246,7 +274,7 @@ fn linearizable(ops: &[Op], rounds: &[OwnedRound], cfg: StateConfig) -> Result<(
         return Err(format!("history too long to check ({n} operations)"));
     }
     let mut seen = HashSet::new();
-    if dfs(0, 0, 0, ops, rounds, cfg, &mut cache, &mut seen) {
+    if dfs(0, 0, 0, None, ops, rounds, cfg, &mut cache, &mut seen) {
         Ok(())
     } else {
         // explain: which snapshot equals no whole-round state at all
@@ -255,7 +283,8 @@ fn linearizable(ops: &[Op], rounds: &[OwnedRound], cfg: StateConfig) -> Result<(
                 let mut whole = false;
                 for a in 0..=rounds.len() {
                     for b in a..=rounds.len() {
-                        if &model_digest(rounds, a, b, cfg, &mut cache) == digest {
+                        let m = model_digest(rounds, a, b, cfg, &mut cache);
+                        if &m == digest || ops.iter().any(|o| matches!(o, Op::Fail { text, .. } if &with_error(&m, Some(text.as_str())) == digest)) {
                             whole = true;
                         }
                     }
@@ -308,6 +337,10 @@ fn execute(w: &Workload) {
             world::with_world(world::World::on_publish);
             last_return.set(st.fetch_add(1, Ordering::SeqCst));
         });
+        if let Err(e) = &res {
+            let resp = st.fetch_add(1, Ordering::SeqCst);
+            hi.lock().unwrap().push(Op::Fail { inv: last_return.get(), resp, text: e.to_string() });
+        }
         res.is_ok()
     });
     // reader threads
@@ -338,6 +371,13 @@ fn execute(w: &Workload) {
     for r in readers {
         let _ = r.join();
     }
+    // what is left when everything has finished is observed too
+    {
+        let inv = stamp.fetch_add(1, Ordering::SeqCst);
+        let snap = tracer.snapshot();
+        let resp = stamp.fetch_add(1, Ordering::SeqCst);
+        history.lock().unwrap().push(Op::Snapshot { inv, resp, reader: w.readers.len(), digest: digest(&snap) });
+    }
     clock::disable();
     world::WORLD.with(|x| *x.borrow_mut() = None);
     let ops = history.lock().unwrap().clone();
@@ -354,6 +394,7 @@ fn execute(w: &Workload) {
                 Op::Publish { k, resp, .. } => (*resp, 0u8, *k as u64),
                 Op::Clear { resp, reader, .. } => (*resp, 1, *reader as u64),
                 Op::Snapshot { resp, reader, .. } => (*resp, 2, *reader as u64),
+                Op::Fail { resp, .. } => (*resp, 3, 0),
             })
             .collect();
         order.sort_unstable();
@@ -383,6 +424,7 @@ fn history_json() -> Value {
                 Op::Publish { k, inv, resp } => json!({"op": "publish", "round": k, "inv": inv, "resp": resp}),
                 Op::Clear { inv, resp, reader } => json!({"op": "clear", "reader": reader, "inv": inv, "resp": resp}),
                 Op::Snapshot { inv, resp, reader, digest } => json!({"op": "snapshot", "reader": reader, "inv": inv, "resp": resp, "digest_hash": format!("{:016x}", simcore::fnv1a(digest.as_bytes()))}),
+                Op::Fail { inv, resp, text } => json!({"op": "tracer-failed", "inv": inv, "resp": resp, "error": text}),
             })
             .collect();
         items.sort_by_key(|v| v["inv"].as_u64());
@@ -615,7 +657,7 @@ fn run_check(tier: &str, batch_seed: u64) -> i32 {
         level: "exploration".into(),
         evaluations: totals.0,
         distinct_nontrivial: totals.2.len() as u64,
-        rule: "each evaluation = one seeded schedule (shuttle RandomScheduler or PCT) of one workload (tracer thread publishing 2..5 rounds over the simulated network; 1..3 reader threads with 1..4 snapshot/clear operations each); non-trivial = at least one reader operation overlapped the tracer's run; distinct = distinct orders of (operation kind, round or reader) by response stamp".into(),
+        rule: "each evaluation = one seeded schedule (shuttle RandomScheduler or PCT) of one workload (tracer thread publishing 2..5 rounds over the simulated network; 1..3 reader threads with 1..4 snapshot/clear operations each; in a third of the workloads the tracer dies of a fatal socket error at a drawn point, so that the error hand-off races with the readers; one more snapshot is taken when every thread has finished); non-trivial = at least one reader operation overlapped the tracer's run; distinct = distinct orders of (operation kind, round or reader) by response stamp".into(),
         samples: vec![json!({"workload": sample_w.to_json(), "scenario": scenario_of(&sample_w).to_json()})],
         exhaustive: false,
         extra,
